@@ -36,6 +36,7 @@ PROPS["C17"] = {
         {"name": "regression", "kind": "plain", "test": "TestReplayDir"},
         {"name": "field-exhaustive", "kind": "plain", "test": "TestC17FieldExhaustive"},
         {"name": "rs-degrees", "kind": "plain", "test": "TestC17RSDegrees"},
+        {"name": "rs-concurrent", "kind": "plain", "test": "TestC17RSConcurrent"},
         {"name": "rapid", "kind": "rapid", "test": "TestC17Rapid", "checks": {"quick": 6000, "thorough": 300000}},
     ],
     "rule": "exhaustive: all (a,b) of GF(16), GF(64), GF(256)/0x11D, GF(256)/0x12D, GF(1024), GF(4096), each with base 0 and 1 (non-trivial = a != 0, "
@@ -326,14 +327,16 @@ PROPS["C16"] = {
     "race": True, "oneshot": True, "race_is_violation": True,
     "parts": [
         {"name": "regression", "kind": "plain", "test": "TestReplayDir"},
+        {"name": "leak-sweep", "kind": "plain", "test": "TestC16LeakSweep", "plain_shards": 16},
         {"name": "cold-start", "kind": "plain", "test": "TestC16ColdStart"},
-        {"name": "rapid", "kind": "rapid", "test": "TestC16Rapid", "checks": {"quick": 480, "thorough": 16000}, "shrinktime": "60s"},
+        {"name": "rapid", "kind": "rapid", "test": "TestC16Rapid", "checks": {"quick": 320, "thorough": 16000}, "shrinktime": "60s"},
     ],
     "universes": {"families": list(FAMS)},
     "rule": "case = workload of 2/3/4/8/16/32/64 goroutines released by a barrier, each performing one encoder call (pool of distinct RS degrees, QR error paths that "
             "start producer goroutines, calls of all families) 1..3 times, optionally followed by Scale, under GOMAXPROCS 1/2/4/16; 25% of the workloads run as the "
             "first calls of a fresh race-instrumented process; cold-start part: the whole RS-degree pool and the error-path calls as simultaneous first calls for "
-            "each GOMAXPROCS value, rotated. Every case is non-trivial (>= 2 concurrent calls); distinct by the whole workload.",
+            "each GOMAXPROCS value, rotated; leak-sweep part: single calls, QR numeric/alphanumeric/auto of every length up to 330 (thorough 1800) x 4 levels, "
+            "capacity-0..3 of every version, error paths, hostile constants, goroutine count compared after each call. Every case is non-trivial (>= 2 concurrent calls); distinct by the whole workload.",
     "assumptions": COMMON_ASSUMPTIONS,
 }
 
